@@ -45,6 +45,8 @@ def floors(ctx):
          "cases_with_big_attrs": 20}
     for p in range(6):
         f[f"proto{p}"] = 10
+    f["protodefault"] = 5
+    f["via_dump_file"] = 10
     for l in ("pickle", "dill"):
         for w in ("same", "fresh"):
             for c in ("cache_on", "cache_off"):
@@ -135,7 +137,17 @@ def dump_bytes(root, proto, via, low_recursion=False):
         sys.setrecursionlimit(len(inspect.stack()) + 150)
     try:
         if via == "dumps":
-            return nrpickler.dumps(root, protocol=proto)
+            return nrpickler.dumps(root, protocol=proto) if proto is not None else nrpickler.dumps(root)
+        if via == "dump_file":
+            # a real (buffered) file object rather than BytesIO
+            fd, path = tempfile.mkstemp(prefix="egv_c10_", suffix=".pkl")
+            try:
+                with os.fdopen(fd, "wb") as fp:
+                    nrpickler.dump(root, fp, protocol=proto)
+                with open(path, "rb") as fp:
+                    return fp.read()
+            finally:
+                os.unlink(path)
         f = io.BytesIO()
         nrpickler.dump(root, f, protocol=proto)
         return f.getvalue()
@@ -256,7 +268,8 @@ def run_case(ctx, rng, cfg, desc, root, objs_all, batch):
     finally:
         Vertex.NEIGHBOR_CACHING = False
     ctx.evaluated()
-    ctx.count(f"proto{cfg['proto']}")
+    ctx.count(f"proto{cfg['proto'] if cfg['proto'] is not None else 'default'}")
+    ctx.count("via_" + cfg["via"])
     ctx.count(f"{cfg['loader']}:{cfg['where']}:{'cache_on' if cfg['cache_load'] else 'cache_off'}")
     if any(n.get("links") or n.get("ends") for n in form0["nodes"]):
         ctx.nontrivial(("c", str(form0["top"])[:80], len(form0["nodes"]), json.dumps(cfg, sort_keys=True), desc.get("seed"), str(desc.get("spec"))[:200], desc.get("n")))
@@ -278,7 +291,8 @@ def run_case(ctx, rng, cfg, desc, root, objs_all, batch):
 
 
 def rand_cfg(rng, fresh_p=0.25):
-    return {"proto": rng.randrange(6), "via": rng.choice(["dumps", "dump"]), "loader": rng.choice(["pickle", "dill"]),
+    return {"proto": rng.choice([0, 1, 2, 3, 4, 5, None]), "via": rng.choice(["dumps", "dump", "dump_file"]),
+            "loader": rng.choice(["pickle", "dill"]),
             "where": "fresh" if rng.random() < fresh_p else "same", "cache_dump": rng.random() < 0.5,
             "cache_load": rng.random() < 0.5, "warm": rng.random() < 0.4}
 
